@@ -76,7 +76,7 @@ theorem parsePairs_print (a : SigArg) (h : SigArg.WF a) (rest : List Char) (fuel
         rw [hct] at hpp
         split
         · rename_i heq; simp at heq; exact absurd heq.1 hne
-        · simp only [hpp, bind, Option.bind]
+        · simp only [hpp, bind, Option.bind, skipComma]
           cases f with
           | zero => simp at hf
           | succ f' => simp [parsePairs]
@@ -93,7 +93,7 @@ theorem parsePairs_print (a : SigArg) (h : SigArg.WF a) (rest : List Char) (fuel
         rw [hct] at hpp ⊢
         split
         · rename_i heq; simp at heq; exact absurd heq.1 hne
-        · simp only [hpp, bind, Option.bind]
+        · simp only [hpp, bind, Option.bind, skipComma]
           rw [ih hr f (by simp at hf ⊢; omega)]
           rfl
 
